@@ -13,6 +13,10 @@
   * `no_bp_no_pause`       : with no breakpoint at the PC `continue` proceeds at once.
   `.break` directives become predefined breakpoints at origin + statement index
   (`newDbg`; the relative addresses come from the assembler model).
+
+  The statements over WHOLE SESSIONS (no `Armed` hypothesis; event log; `.break` from the source
+  text to the debugger's list) are in `Props/C11Trace.lean`; the lemmas here are per call of
+  `next_action` / per loop iteration.
 -/
 import Lace.Props.C16
 import Lace.Props.C12
